@@ -39,7 +39,7 @@ RULE = (
     "Non-trivial = >= 3 files with a bad/unreadable one that is not last, or a non-default option.")
 ASSUMPTIONS = ['the S3 options (-b/-p/-s/-k) run against the fake S3 of C18',
                'inspect() output of the library is the reference for the inspect command (self-consistency)']
-MANDATORY = ['other-OSError', 'relative-names', 'odd-file-names', 'file-listed-twice', 'detect', 'inspect', 'merge', 'detect:s3', 'inspect:s3', 'merge:s3', 'merge:shape:completed-create', 'bad-file-not-last', 'missing-path', 'directory', 'completed-ro',
+MANDATORY = ['non-utf8-files', 'other-OSError', 'relative-names', 'odd-file-names', 'file-listed-twice', 'detect', 'inspect', 'merge', 'detect:s3', 'inspect:s3', 'merge:s3', 'merge:shape:completed-create', 'bad-file-not-last', 'missing-path', 'directory', 'completed-ro',
              'merge:-o', 'merge:-o=input-file', 'merge:-i', 'merge:-n', 'merge:invalid-collection', 'merge:strict-failure',
              'merge:no-input']
 
@@ -81,8 +81,14 @@ def materialise(case, root):
             p = os.path.join(root, f'dir{i:02d}')
             os.makedirs(p, exist_ok=True)
         else:
-            with open(p, 'w', encoding='utf-8') as f:
-                f.write(content)
+            enc = (case.get('encodings') or {}).get(str(i))
+            raw = None
+            if enc and kind == 'valid':
+                from checks.c08 import encoded, encodable
+                if encodable(content, enc):
+                    raw = encoded(content, enc)       # declared ISO-8859-1 / UTF-16: a valid file
+            with open(p, 'wb') as f:
+                f.write(raw if raw is not None else content.encode('utf-8'))
             base = os.path.basename(p)
             if any(ch in base for ch in '[*?'):
                 # a sibling that the name would match if it were read as a shell pattern (not listed)
@@ -377,8 +383,13 @@ def listing_case(draw):
         for i in list(names)[:2]:
             names[i] = draw(st.sampled_from(['~backup{}.mos.xml', '~${}.mos.xml', '.hidden{}.mos.xml', '@list{}.mos.xml',
                                              '+plus{}.xml', '#hash{}.xml'])).format(i)
+    encodings = {}
+    if draw(st.booleans()):
+        for i in range(len(files)):
+            if draw(st.integers(0, 2)) == 0:
+                encodings[str(i)] = draw(st.sampled_from(['latin1', 'utf16', 'utf16be']))
     return {'cmd': draw(st.sampled_from(['detect', 'inspect'])), 'files': [list(f) for f in files], 'names': names,
-            'relative': relative}
+            'relative': relative, 'encodings': encodings}
 
 
 @st.composite
@@ -440,6 +451,8 @@ def shard(args):
             cl.append('other-OSError')
         if case.get('relative'):
             cl.append('relative-names')
+        if case.get('encodings'):
+            cl.append('non-utf8-files')
         if any(k == 'valid' and c and 'mosromgrmeta' in c for k, c in case['files']):
             cl.append('completed-ro')
         if case.get('names'):
